@@ -181,7 +181,9 @@ class GeminiClientProtocol(asyncio.Protocol):
                             break
                 try:
                     body = self.buffer.decode(charset)
-                except UnicodeDecodeError as e:
+                except (UnicodeError, LookupError) as e:
+                    # LookupError: the declared charset is unknown to Python or
+                    # is not a text encoding
                     self.response_future.set_exception(e)
                     return
             else:
@@ -402,7 +404,9 @@ class TitanClientProtocol(asyncio.Protocol):
                             break
                 try:
                     body = self.buffer.decode(charset)
-                except UnicodeDecodeError as e:
+                except (UnicodeError, LookupError) as e:
+                    # LookupError: the declared charset is unknown to Python or
+                    # is not a text encoding
                     self.response_future.set_exception(e)
                     return
             else:
